@@ -32,6 +32,9 @@ def gen_case(rng: random.Random):
     nd = rng.choice([2, 2, 3])
     T = rng.randint(1, 7)
     shape = (14, 14) if nd == 2 else (6, 8, 8)
+    dense = kind == "seg" and rng.random() < 0.3
+    if dense:  # small frames: several cells of one frame overlap the same cell of the next
+        shape = (6, 6) if nd == 2 else (3, 5, 5)
     pattern = []
     for t in range(T):
         r = rng.random()
@@ -46,7 +49,14 @@ def gen_case(rng: random.Random):
             "exact": exact}
     dets = []  # (t, cells) or (t, point)
     label = 1
-    labels = rng.sample(range(1, 200), sum(pattern)) if sum(pattern) else []
+    # label dtype and value range: narrow unsigned types with values up to their maximum
+    dtype = rng.choice(["int32", "int32", "int64", "uint16", "uint8", "uint32"])
+    top = {"uint8": 255, "uint16": rng.choice([1500, 65535]), "int32": 2000, "uint32": 70000,
+           "int64": 2000}[dtype]
+    if sum(pattern) > top:
+        dtype, top = "int32", 2000
+    labels = rng.sample(range(1, top + 1), sum(pattern)) if sum(pattern) else []
+    case["dtype"] = dtype
     li = 0
     for t, c in enumerate(pattern):
         occ = np.zeros(shape, bool)
@@ -113,7 +123,7 @@ def build_inputs(case):
         if len(case["dets"]) == 0:
             pts = np.zeros((0, case["nd"] + 1))
         return pts
-    seg = np.zeros((case["T"], *case["shape"]), dtype=np.int32)
+    seg = np.zeros((case["T"], *case["shape"]), dtype=np.dtype(case.get("dtype", "int32")))
     for d in case["dets"]:
         sl = tuple(slice(a, b) for a, b in d["sl"])
         seg[d["t"]][sl] = d["label"]
